@@ -503,3 +503,5 @@ PROPS['C12']['kani'] = PROPS['C12']['kani'] + [
     H(ROOT + 'dep::dep_k_int_ranges', ['cbor-smol deserialize_u8 / deserialize_i32 (dependency, A8: integer ranges, validated)'], kind='gc',
       bound='all 3-byte inputs as u8, all 5-byte inputs as i32 (complete for heads up to 4 value bytes)'),
 ]
+
+PROPS['C14']['decl'] = True
